@@ -133,7 +133,15 @@ struct Job {
     id: usize,
     owner: Option<TaskId>,
     stage: JobStage,
+    /// driver steps this job has been runnable without being run
+    age: usize,
 }
+
+/// A closure handed to the blocking pool completes in bounded real time whatever the async tasks
+/// do: a job that has been passed over this many driver steps is run next, without a decision
+/// (otherwise a task that polls until the job's effect is visible would spin for ever under the
+/// run-to-completion default policy).
+const JOB_AGE_LIMIT: usize = 48;
 
 /// A schedulable entity.
 #[derive(Debug, Clone, Copy, PartialEq, Eq, Hash, serde::Serialize, serde::Deserialize)]
@@ -436,7 +444,7 @@ impl Controller for Ctl {
         let id = st.next_job;
         st.next_job += 1;
         let owner = st.in_poll;
-        st.jobs.push_back(Job { id, owner, stage: JobStage::Closure(f) });
+        st.jobs.push_back(Job { id, owner, stage: JobStage::Closure(f), age: 0 });
     }
 
     fn deferred_write(&self, file: std::fs::File, offset: u64, data: Vec<u8>) {
@@ -675,6 +683,22 @@ pub async fn drive(ctl: &Ctl, prefix: &[usize]) -> RunTrace {
                 steps,
             };
         }
+        // fairness towards the blocking pool
+        let starving = {
+            let mut st = ctl.st.borrow_mut();
+            for j in st.jobs.iter_mut() {
+                j.age += 1;
+            }
+            st.jobs.iter().find(|j| j.age > JOB_AGE_LIMIT).map(|j| j.id)
+        };
+        if let Some(id) = starving {
+            if tracing {
+                steps_log.push(format!("aged job {id}"));
+            }
+            run_job(ctl, id);
+            steps += 1;
+            continue;
+        }
         steps += 1;
         if steps > ctl.cfg.step_cap {
             return RunTrace {
@@ -783,7 +807,7 @@ fn run_job(ctl: &Ctl, id: usize) {
                 } else {
                     // second step of the same job: it keeps its id and its place in the order
                     let mut st = ctl.st.borrow_mut();
-                    st.jobs.push_front(Job { id: job.id, owner: job.owner, stage: JobStage::Finish { writes, deliver } });
+                    st.jobs.push_front(Job { id: job.id, owner: job.owner, stage: JobStage::Finish { writes, deliver }, age: 0 });
                     st.jobs_run -= 1;
                 }
             }
